@@ -573,6 +573,12 @@ func (s Subtitles) WriteToWebVTT(o io.Writer) (err error) {
 		c = append(c, bytesWebVTTTimeBoundariesSeparator...)
 		c = append(c, []byte(formatDurationWebVTT(item.EndAt))...)
 
+		// Add region when there are no other settings
+		if item.Region != nil && item.InlineStyle == nil {
+			c = append(c, bytesSpace...)
+			c = append(c, []byte("region:"+item.Region.ID)...)
+		}
+
 		// Add styles
 		if item.InlineStyle != nil {
 			if item.InlineStyle.WebVTTAlign != "" {
